@@ -661,7 +661,7 @@ def part_dispatch(ctx, rec, wb, drv, reps):
     DispatchModel.dispatch; results against the truth on either path"""
     scs = []
     for rep in range(reps):
-        for typ in G.EIGHT + (["T16", "E12"] if rep == 0 else []):
+        for typ in list(G.EIGHT) + (["T16", "E12"] if rep == 0 else []):
             for v in G.TRL_VARIANTS:
                 scs.append(G.build_trl_shaped(ctx.rng, "shape_%d_%s_%s" % (rep, typ, v), typ, v))
     lines, cases = [], []
